@@ -672,6 +672,11 @@ def check_history(ctx, case):
         _close(ctx, obj.natural_density, d * R(comp), 'history-relation', problems,
                '%s: natural_density with density %r and model mass ratio %r of the current composition'
                % (label, d, R(comp)))
+        # the estimated volume follows the composition too (public atoms only: the private table has no radii)
+        if 'change_table' not in label and all(k[0] in _s['radius'] for k in comp):
+            spheres = 4 * math.pi / 3 * sum(c * _s['radius'][k[0]] ** 3 for k, c in comp.items())
+            _close(ctx, obj.volume(), spheres / PACKING['hcp'] * 1e-24, 'history-volume', problems,
+                   '%s: volume() against the covalent spheres of the current composition' % label)
 
     changed = False
     for op in case['ops']:
